@@ -55,11 +55,23 @@ impl Check for SimCheck {
         self.id
     }
     fn run_unit(&mut self, _part: &str, u: u64, env: &mut Env) -> CaseOut {
+        if _part == "showincludes" {
+            return showincludes_unit(u, env.tier.pick(5, 6));
+        }
         let (nouts, ndeps, namelen, mb, extra) = shape_of(u);
         let out = run_shape_case(nouts, ndeps, namelen, mb, extra, &env.dir);
         CaseOut { viols: out.viols, nontrivial: true, fp: fnv_str(&out.fp_text), classes: vec!["shape".into()], desc: out.desc, evals: out.stats.invocations.max(1), ..Default::default() }
     }
     fn run_replay(&mut self, _part: &str, replay: &serde_json::Value, env: &mut Env) -> CaseOut {
+        if let Some(s) = replay["showincludes_output"].as_str() {
+            let (want_inc, want_rest) = showincludes_reference(s.as_bytes());
+            let (inc, rest) = n2::verif::extract_showincludes(s.as_bytes().to_vec());
+            let mut out = CaseOut { evals: 1, ..Default::default() };
+            if inc != want_inc || rest != want_rest {
+                out.viols.push(Viol::new("C09", "showincludes-filter", format!("output {:?}: includes {:?} shown {:?}; expected {:?} / {:?}", s, inc, String::from_utf8_lossy(&rest), want_inc, String::from_utf8_lossy(&want_rest))));
+            }
+            return out;
+        }
         if replay["scenario"] == "F10" {
             let out = run_f10_scenario(&env.dir);
             return CaseOut { viols: out.viols, nontrivial: true, fp: 10, desc: out.desc, evals: 1, ..Default::default() };
@@ -97,6 +109,9 @@ impl Check for SimCheck {
     }
     fn parts(&self, tier: Tier) -> Vec<Part> {
         let mut v = vec![Part { name: "hist", kind: PartKind::Random { cases: tier.pick(self.quick, self.thorough), main: 120, ops: 7, oplen: 40, sched: 60 } }];
+        if self.id == "C09" {
+            v.push(Part { name: "showincludes", kind: PartKind::Enum { units: 9 } });
+        }
         if self.id == "C08" {
             v.push(Part { name: "shapes", kind: PartKind::Enum { units: tier.pick(600, 6000) } });
         }
@@ -227,4 +242,100 @@ pub fn sim_check(id: &str) -> Option<SimCheck> {
         },
         _ => return None,
     })
+}
+
+// ---------------------------------------------------------------------------------------------
+// C09: the /showIncludes filter, exhaustively over short line sequences
+
+const SI_LINES: [&[u8]; 9] = [
+    b"some text",
+    b"",
+    b"Note: including file: a.h",
+    b"Note: including file:    sub/b.h",
+    b"Note: including file: c:\\x\\c.h\r",
+    b"  Note: including file: indented.h",
+    b"Note: including file:",
+    b"text with Note: including file: inside",
+    b"other\r",
+];
+
+/// Reference filter: lines (with their terminators) that start with the prefix are removed; what follows the
+/// prefix, without leading spaces and a trailing CR, is an include.
+fn showincludes_reference(input: &[u8]) -> (Vec<String>, Vec<u8>) {
+    let mut inc = vec![];
+    let mut rest = vec![];
+    let mut i = 0;
+    while i < input.len() {
+        let end = input[i..].iter().position(|&c| c == b'\n').map(|p| i + p + 1).unwrap_or(input.len());
+        let line = &input[i..end];
+        let body = line.strip_suffix(b"\n").unwrap_or(line);
+        if let Some(r) = body.strip_prefix(b"Note: including file: ") {
+            let r = r.strip_suffix(b"\r").unwrap_or(r);
+            let start = r.iter().position(|&c| c != b' ').unwrap_or(0);
+            inc.push(String::from_utf8_lossy(&r[start..]).into_owned());
+        } else {
+            rest.extend_from_slice(line);
+        }
+        i = end;
+    }
+    (inc, rest)
+}
+
+pub fn showincludes_unit(u: u64, maxlines: usize) -> CaseOut {
+    let mut out = CaseOut::default();
+    let n = SI_LINES.len() as u64;
+    let mut filtered_some = 0u64;
+    for l in 0..maxlines {
+        for k in 0..n.pow(l as u32) {
+            for final_nl in [true, false] {
+                let mut idx = vec![u as usize];
+                let mut y = k;
+                for _ in 0..l {
+                    idx.push((y % n) as usize);
+                    y /= n;
+                }
+                let mut input = vec![];
+                for (i, &li) in idx.iter().enumerate() {
+                    input.extend_from_slice(SI_LINES[li]);
+                    if i + 1 < idx.len() || final_nl {
+                        input.push(b'\n');
+                    }
+                }
+                out.evals += 1;
+                let (want_inc, want_rest) = showincludes_reference(&input);
+                let inp = input.clone();
+                let _ = crate::util::take_panic();
+                let got = std::panic::catch_unwind(move || n2::verif::extract_showincludes(inp));
+                let shown = String::from_utf8_lossy(&input).into_owned();
+                match got {
+                    Err(_) => {
+                        let (m, f) = crate::util::take_panic().unwrap_or_default();
+                        out.viols.push(Viol::new("C09", crate::util::panic_key(&m, &f), format!("extract_showincludes({:?}) panicked: {}", shown, m)));
+                    }
+                    Ok((inc, rest)) => {
+                        if rest.split(|&c| c == b'\n').any(|l| l.starts_with(b"Note: including file: ")) {
+                            out.viols.push(Viol::new("C09", "include-line-shown", format!("output {:?}: an include line is still shown: {:?}", shown, String::from_utf8_lossy(&rest))));
+                        } else if inc != want_inc {
+                            out.viols.push(Viol::new("C09", "includes-differ", format!("output {:?}: includes {:?}, expected {:?}", shown, inc, want_inc)));
+                        } else if rest != want_rest {
+                            out.viols.push(Viol::new("C09", "other-output-altered", format!("output {:?}: shown {:?}, expected {:?}", shown, String::from_utf8_lossy(&rest), String::from_utf8_lossy(&want_rest))));
+                        }
+                        if !want_inc.is_empty() {
+                            filtered_some += 1;
+                        }
+                    }
+                }
+                if !out.viols.is_empty() {
+                    out.replay = Some(serde_json::json!({"showincludes_output": shown}));
+                    out.desc = serde_json::json!({"command_output": shown});
+                    return out;
+                }
+            }
+        }
+    }
+    out.nontrivial = true;
+    out.fp = 0x5100 + u;
+    out.extra_fps = (0..filtered_some).map(|i| ((0x5100 + u) << 32) | i).collect();
+    out.desc = serde_json::json!({"first_line": String::from_utf8_lossy(SI_LINES[u as usize]), "outputs_checked": out.evals, "with_include_lines": filtered_some});
+    out
 }
